@@ -107,3 +107,16 @@ Proof.
   split; [reflexivity|]. split; [|vm_compute; reflexivity].
   unfold phys_ok. split; [vm_compute; reflexivity|]. split; vm_compute; reflexivity.
 Qed.
+
+(* The stored form of a block under the snappy codec, as the specification words it: the raw
+   snappy stream "followed by the 4-byte, big-endian CRC32 checksum of the uncompressed data
+   in the block" (Model/Compress.v models snappyCodec.compress; crc32 is the bit-by-bit
+   CRC-32/IEEE, compared with hash/crc32 and with the bytes the library's writer stores on
+   every run).  With the null codec the stored form is the payload, with deflate the raw
+   deflate stream. *)
+Require Import Avro.Model.Compress Avro.Proofs.CompressP.
+Theorem C02_snappy_block_layout : forall raw_enc u,
+  exists t, snappy_compress raw_enc u = raw_enc u ++ t /\ length t = 4%nat /\ bytes_ok t /\
+            be32_dec t = crc32 u /\ t = be32 (crc32 u).
+Proof. exact snappy_block_layout. Qed.
+Print Assumptions C02_snappy_block_layout.
